@@ -34,7 +34,7 @@ func projAF(a *astits.PacketAdaptationField) M {
 		m["opcr"] = projCR(a.OPCR, true)
 	}
 	if a.HasSplicingCountdown {
-		m["splice"] = []interface{}{a.SpliceCountdown & 0xff}
+		m["splice"] = []interface{}{a.SpliceCountdown}
 	}
 	if a.HasTransportPrivateData {
 		m["priv"] = []interface{}{ints(a.TransportPrivateData)}
@@ -215,7 +215,7 @@ func buildAF(class string, r *rng) *astits.PacketAdaptationField {
 		return &astits.PacketAdaptationField{HasTransportPrivateData: true, TransportPrivateData: r.bytes(10), TransportPrivateDataLength: 10}
 	case "rich":
 		return &astits.PacketAdaptationField{RandomAccessIndicator: r.boolean(), ElementaryStreamPriorityIndicator: r.boolean(),
-			HasPCR: true, PCR: pcr(), HasOPCR: true, OPCR: pcr(), HasSplicingCountdown: true, SpliceCountdown: r.intn(256),
+			HasPCR: true, PCR: pcr(), HasOPCR: true, OPCR: pcr(), HasSplicingCountdown: true, SpliceCountdown: r.intn(256) - 128,
 			HasTransportPrivateData: true, TransportPrivateData: r.bytes(5), TransportPrivateDataLength: 5,
 			HasAdaptationExtensionField: true, AdaptationExtensionField: &astits.PacketAdaptationExtensionField{
 				HasLegalTimeWindow: true, LegalTimeWindowIsValid: r.boolean(), LegalTimeWindowOffset: uint16(r.intn(1 << 15)),
